@@ -4,8 +4,12 @@
 // securityPolicy, keys), QXmppTrustMessageElement / QXmppTrustMessageKeyOwner accessors, QXmppStanza::from / e2eeMetadata,
 // QXmppE2eeMetadata::senderKey, QXmppUtils::jidToBareJid, QXmppFutureUtils (makeReadyTask) over the Task/Promise shadow.
 // Environment: the trust storage INTERFACE is the array-backed model `Store` below (universe: 2 accounts x 2 keys + an
-// unknown sender key), hash containers are the class-level models of c18_containers.h, QXmppClient / QXmppConfiguration
-// answer harness values, QXmppMessage::trustMessageElement() is fed by the harness, sendTrustMessage is a recorder.
+// unknown sender key), hash containers are the class-level models of c18_containers.h, QList block management and the
+// universe strings are in c18_env.c, QXmppClient / QXmppConfiguration answer harness values,
+// QXmppMessage::trustMessageElement() is fed by the harness, sendTrustMessage is a recorder.
+// Oracle: a reference model of XEP-0450 over the same universe (refApply / refAuthenticate / refDistrust), written from the
+// property text, plus the frame conditions of the property as separate assertions.  Single steps from an arbitrary valid
+// pre-state (h_msg: one received trust message, h_manual: one manual decision); shapes are fixed per instance (C18_CFG).
 #include <QString>
 #include <QByteArray>
 #include <QHash>
@@ -302,7 +306,7 @@ static QByteArray key1(unsigned c) { QByteArray s; vp_c18_key_str(&s, c); return
 // (A..D or X) about any pair.  Representation invariant of the storage: at most one entry per (sender key, pair).
 // fixedContact (1..6): both keys of the contact have the CONCRETE level 1 << (fixedContact - 1) (case split per instance; keeps
 // the key lists built from the storage concrete where the code under check iterates over them).
-static void symState(TrustState &st, int npre, unsigned fixedContact = 0)
+static void symState(TrustState &st, int npre, unsigned fixedContact = 0, bool allowSameDecision = false)
 {
     for (int q = 0; q < NQ; q++) {
         if (fixedContact && q >= 2) { st.L[q] = (unsigned char)(1u << (fixedContact - 1)); continue; }
@@ -320,7 +324,7 @@ static void symState(TrustState &st, int npre, unsigned fixedContact = 0)
     // (entries of the unknown sender key X and of own keys may concern any pair); (3) bound of this harness: no two senders have
     // postponed the SAME decision (same pair, same direction) - see SPEC['outside'].
     for (int i = 0; i < 2; i++) { if (i < npre) vp_assume(!(st.P[i].used && (st.P[i].s == 'C' || st.P[i].s == 'D') && st.P[i].q < 2)); }
-    if (npre > 1) vp_assume(!(st.P[0].used && st.P[1].used && st.P[0].q == st.P[1].q && (st.P[0].s == st.P[1].s || st.P[0].t == st.P[1].t)));
+    if (npre > 1) vp_assume(!(st.P[0].used && st.P[1].used && st.P[0].q == st.P[1].q && (st.P[0].s == st.P[1].s || (st.P[0].t == st.P[1].t && !allowSameDecision))));
 }
 
 // ------------------------------------------------------------------------------------------------ reference model of XEP-0450
@@ -360,7 +364,7 @@ template<int DEPTH> static void refApply(TrustState &r, unsigned policy, unsigne
     refAuthenticate<DEPTH>(r, policy, A);
     refDistrust(r, D);
 }
-template<> void refApply<0>(TrustState &, unsigned, unsigned A, unsigned D) { vp_assume(A == 0 && D == 0); }
+template<> void refApply<0>(TrustState &, unsigned, unsigned A, unsigned D) { vp_c18_limit(A == 0 && D == 0); }   // deeper cascades than the pre-state allows: flagged
 
 // post-state of the storage model == reference state (postponed decisions compared as a set)
 static bool sameLevels(const TrustState &a, const TrustState &b)
@@ -390,7 +394,7 @@ extern "C" void h_msg()
     World w;
     unsigned cfg = vp_c18_cfg();
     int nOwners = 1 + (cfg & 1);
-    symState(g_st, (cfg >> 8) & 3);
+    symState(g_st, (cfg >> 8) & 3, 0, (cfg >> 10) & 1);   // bit 10: lift bound (3) of symState (demonstration instance only)
     TrustState ref = g_st;
     const TrustState pre = g_st;
 
